@@ -315,6 +315,7 @@ pub fn xpath_op(rest: &[&str], a: &Args) -> Option<Outcome> {
                     "number" => fh::number(vals(a), node.clone(), &mut c),
                     "substring" => fh::substring(vals(a), node.clone(), &mut c),
                     "string_length" => fh::string_length(vals(a), node.clone(), &mut c),
+                    "translate" => fh::translate(vals(a), node.clone(), &mut c),
                     "sum" => fh::sum(vals(a), node.clone(), &mut c),
                     "count" => fh::count(vals(a), node.clone(), &mut c),
                     _ => return "unknown".to_string(),
@@ -347,6 +348,27 @@ pub fn xpath_op(rest: &[&str], a: &Args) -> Option<Outcome> {
                     Value::Text(s) => show_value(&Value::Number(s.chars().count() as f64)),
                     _ => return None,
                 },
+                "translate" => {
+                    // XPath 1.0 4.2: characters of s1 that occur in s2 are replaced by the character at the same position of
+                    // s3 (first occurrence in s2 counts), or removed when s3 is shorter
+                    let t = |v: Option<&Value>| match v {
+                        Some(Value::Text(s)) => Some(s.chars().collect::<Vec<char>>()),
+                        _ => None,
+                    };
+                    let (s1, s2, s3) = (t(args.first())?, t(args.get(1))?, t(args.get(2))?);
+                    let mut out = String::new();
+                    for ch in s1 {
+                        match s2.iter().position(|v| *v == ch) {
+                            Some(i) => {
+                                if i < s3.len() {
+                                    out.push(s3[i]);
+                                }
+                            }
+                            None => out.push(ch),
+                        }
+                    }
+                    show_value(&Value::Text(out))
+                }
                 "sum" => show_value(&Value::Number(0.0)),
                 "count" => show_value(&Value::Number(0.0)),
                 _ => return None,
@@ -456,7 +478,7 @@ pub const QUERY_DOCS: [&str; 3] = [
     "<r/>",
 ];
 
-pub const QUERIES: [&str; 58] = [
+pub const QUERIES: [&str; 60] = [
     "//c | //a", "//a | //c", "//e | //b | //a", "(//d | //a)[1]", "//b/* | //b", "//@y | //@x", "//a | //a", "/r/* | /r/b/*",
     "//d/preceding::* | //e", "//e/ancestor::* | //a", "//c/.. | //a/..", "//*/.. | //b/c",
     "$x", "/r/@x/..", "/..", "parent::node()", "/r/@x/parent::node()", "//processing-instruction('p')", "id('a')", "/r/a/..",
@@ -466,6 +488,7 @@ pub const QUERIES: [&str; 58] = [
     "(//d)/preceding-sibling::*", "(//e)/ancestor::*", "(//e)/preceding::*", "(//c)/ancestor-or-self::*", "((//e)/ancestor::*)[last()]", "(//d)/preceding-sibling::*[1]",
     "/r/a[id('x')]", "//b/id('x')", "count(/r/*[id(.)])",
     "//c | //zz | //a", "//e | //nothing | //a | //b", "(//d | //zz | //a)[1]",
+    "translate('abc', 'ab', '\u{e9}')", "translate(//e, 'tx', '\u{1d4b3}')",
     "(//*)[nosuch(1)]", "(/r/*)[q:x]", "/r/b[c[q:x]]", "/r/*[1][q:x]", "//b/*[last()][zz:a]", "count(//*[q:x])", "/r/*[$v]",
 ];
 
@@ -595,6 +618,15 @@ pub fn xpath_grid(rest: &[&str]) -> Vec<Args> {
                     out.push(mk(&[("a0", s), ("a1", x.as_str())]));
                     for y in &nums {
                         out.push(mk(&[("a0", s), ("a1", x.as_str()), ("a2", y.as_str())]));
+                    }
+                }
+            }
+        }
+        ["func", "translate"] => {
+            for s1 in ["s:", "s:abc", "s:a\u{e9}b\u{1d4b3}", "s:--aaa--"] {
+                for s2 in ["s:", "s:a", "s:ab", "s:abc", "s:aba", "s:\u{e9}\u{1d4b3}a"] {
+                    for s3 in ["s:", "s:A", "s:\u{e9}", "s:AB", "s:\u{1d4b3}\u{e9}x", "s:ABCD"] {
+                        out.push(mk(&[("a0", s1), ("a1", s2), ("a2", s3)]));
                     }
                 }
             }
